@@ -14,8 +14,8 @@ Open Scope Z_scope.
 (* (1) locked out: once a ban record for ip is in place — temporary until dl, or permanent (dlo = None) —
    IsBanned(ip) answers true in EVERY state reachable by EVERY schedule up to the deadline (for ever for a
    permanent ban): failures, successes, queries, handshakes, manual bans, both halves of clean-ups, spawned
-   unbans and clock ticks of any number of threads, interleaved arbitrarily.  The only exclusion: no thread
-   program contains the administrative UnbanIP(ip). *)
+   unbans and clock ticks of any number of threads, interleaved arbitrarily.  The only exclusions: no thread
+   program contains the administrative UnbanIP(ip) or a process restart (see C18_ban_lost_on_restart_refuted). *)
 Theorem C18_locked_out :
   forall C ip dlo (s : sst) sched,
   threads_lock ip s -> covers (bans (fst s)) ip dlo ->
@@ -98,16 +98,54 @@ Theorem C18_no_false_refusal_premises_satisfiable :
 Proof. exact no_false_refusal_premises_satisfiable. Qed.
 Print Assumptions C18_no_false_refusal_premises_satisfiable.
 
-(* (3) a blacklisted, not whitelisted address is refused by IsAllowed until the entry's deadline (for ever for
-   a permanent entry) under every schedule; excluded: administrative AddToBlacklist / RemoveFromBlacklist /
-   AddToWhitelist on that same address (the whitelist has priority over the blacklist, as documented) *)
+(* (3) a blacklisted, not whitelisted address is refused by IsAllowed until the entry's deadline (for ever for a
+   permanent entry) under every schedule — ACROSS ANY NUMBER OF RESTARTS AT ANY POINTS: the thread programs may
+   contain CRestart anywhere (everything held in memory is dropped, the lists are rebuilt from the store, where
+   a temporary record lives exactly until its expiry and a permanent one has none).  The entry is the one
+   findInList returns: the exact address, else the CIDR entry containing it (entry_covers).  Excluded only:
+   administrative AddToBlacklist / RemoveFromBlacklist / AddToWhitelist on the address or on its CIDR key
+   (the whitelist has priority over the blacklist, as documented) *)
 Theorem C18_blacklisted_refused :
   forall C ip dlo (s : sst) sched,
-  Forall (thr_bl ip) (snd s) -> wl (fst s) ip = false -> covers (bl (fst s)) ip dlo ->
+  Forall (thr_bl ip) (snd s) -> wl_in (wl (fst s)) ip = false -> entry_covers (bl (fst s)) ip dlo ->
   let s' := runs current_variant C s sched in
   within (now (fst s')) dlo -> is_allowed (fst s') ip = false.
 Proof. exact blacklisted_refused. Qed.
 Print Assumptions C18_blacklisted_refused.
+
+(* non-vacuity of (3) with restarts: permanent exact entry, permanent CIDR entry, temporary entry; two restarts; the
+   temporary entry is refused with time left and let through once lapsed, addresses outside stay allowed *)
+Theorem C18_blacklist_survives_restarts_example :
+  let s1 := runs current_variant wit_cfg (init_sh, wit5_threads) [0; 0; 0]%nat in
+  Forall (thr_bl 40) [LProg PIdle [CRestart; CAllowed 7; CAllowed 40; CRestart; CBlAdd 9 5; CBlRm 7] []; LClock [100; 1000]; LRunBl [O]] /\
+  wl_in (wl (fst s1)) 40 = false /\ entry_covers (bl (fst s1)) 40 None /\ entry_covers (bl (fst s1)) 7 None /\
+  entry_covers (bl (fst s1)) 9 (Some 500) /\
+  nth_error (snd (runs current_variant wit_cfg s1 [1; 0; 0; 0; 0; 0; 1; 0; 0; 2; 0; 0; 0]%nat)) 0
+  = Some (LProg PIdle [] [0; 0; 0; 0; 0; 0; 0; 0; 0; 1; 0; 0; 1]%N).
+Proof. exact blacklist_survives_restarts_example. Qed.
+Print Assumptions C18_blacklist_survives_restarts_example.
+
+(* the range case of entry_covers needs `no exact entry for the address`: a lapsed exact entry is found first and
+   the address is let through although its range entry is in force (known finding expired-exact-entry-shadows-cidr) *)
+Theorem C18_expired_exact_entry_shadows_range_refuted :
+  exists threads sched,
+    let s2 := runs current_variant wit_cfg (init_sh, threads) sched in
+    covers (bl (fst s2)) (cidr_of 40) None /\ wl_in (wl (fst s2)) 40 = false /\
+    nth_error (snd s2) 0 = Some (LProg PIdle [] [0; 0; 1]%N).
+Proof. exact expired_exact_entry_shadows_range_refuted. Qed.
+Print Assumptions C18_expired_exact_entry_shadows_range_refuted.
+
+(* ... whereas the ban list of the BruteForceProtector is process-local: (1) excludes CRestart (threads_lock), and
+   with a restart it is false of the code as it is — a permanent ban is gone after the restart (known finding
+   ban-lost-on-restart; persisting the ban list is a redesign, the type's own comment plans a shared store) *)
+Theorem C18_ban_lost_on_restart_refuted :
+  exists C ip threads pre sched,
+    let s1 := runs current_variant C (init_sh, threads) pre in
+    let s2 := runs current_variant C s1 sched in
+    covers (bans (fst s1)) ip None /\ is_banned (fst s1) ip = true /\
+    nth_error (snd s2) 0 = Some (LProg PIdle [] [0; 1; 0; 0]%N) /\ is_banned (fst s2) ip = false.
+Proof. exact ban_lost_on_restart_refuted. Qed.
+Print Assumptions C18_ban_lost_on_restart_refuted.
 
 (* (4) token bucket, exact arithmetic (tokens scaled by ticks-per-second): from ANY well-formed bucket state,
    over ANY timed sequence of Take(n>=0) and garbage collections with a monotone clock, the admitted tokens
